@@ -42,6 +42,9 @@ func C10setwires(p *load.Program, run *report.Run) {
 	}
 	widthsSets := [][]int{}
 	ws := []int{1, 3, 8, 13}
+	if Deep {
+		ws = []int{1, 2, 3, 7, 8, 9, 13, 16, 31}
+	}
 	for _, a := range ws {
 		for _, b := range ws {
 			widthsSets = append(widthsSets, []int{a, b})
